@@ -1158,6 +1158,47 @@ pub fn handle(st: &mut State, line: &str) -> String {
                 let unknown_failed = m.add_avp_by_name("No-Such-Name", Unsigned32::new(1).into()).is_err();
                 Ok(format!("GBIGN ok={} unknown_failed={} count={} length={}", ok, unknown_failed as u8, m.get_avps().len(), m.get_length()))
             }
+            // NAMERACE <rounds>: a fresh dictionary (built-in document plus one added definition) is shared by eight threads that all
+            // build AVPs by declared names at the same moment - the very first lookups on that dictionary overlap; every one succeeds
+            "NAMERACE" => {
+                let rounds = t.usize_dec()?;
+                let xml: &str = &diameter::dictionary::DEFAULT_DICT_XML;
+                let mut failures = 0usize;
+                let mut first = String::new();
+                for r in 0..rounds {
+                    let mut d = Dictionary::new(&[xml]);
+                    if r % 2 == 1 {
+                        d.add_avp(diameter::dictionary::AvpDefinition { code: 7100 + r as u32, vendor_id: None, name: format!("Race-{}", r), avp_type: AvpType::Unsigned32, m_flag: false });
+                    }
+                    let d = Arc::new(if r % 3 == 2 { d.clone() } else { d });
+                    let barrier = Arc::new(std::sync::Barrier::new(8));
+                    let mut hs = Vec::new();
+                    for k in 0..8usize {
+                        let d = Arc::clone(&d);
+                        let b = Arc::clone(&barrier);
+                        hs.push(std::thread::spawn(move || {
+                            let names = ["Session-Id", "Origin-Host", "Result-Code", "Origin-Realm", "CC-Request-Number", "Auth-Application-Id", "Destination-Realm", "User-Name"];
+                            let mut m = DiameterMessage::new(CommandCode::CreditControl, ApplicationId::CreditControl, 0x80, 1, 2, Arc::clone(&d));
+                            b.wait();
+                            let nm = names[k % names.len()];
+                            let ok = match nm {
+                                "Result-Code" | "CC-Request-Number" | "Auth-Application-Id" => m.add_avp_by_name(nm, Unsigned32::new(1).into()).is_ok(),
+                                "Origin-Host" | "Origin-Realm" | "Destination-Realm" => m.add_avp_by_name(nm, Identity::new("h.example").into()).is_ok(),
+                                _ => m.add_avp_by_name(nm, UTF8String::new("x").into()).is_ok(),
+                            };
+                            (nm, ok)
+                        }));
+                    }
+                    for h in hs {
+                        match h.join() {
+                            Ok((_, true)) => {}
+                            Ok((nm, false)) => { failures += 1; if first.is_empty() { first = format!("round{}:{}", r, nm); } }
+                            Err(_) => { failures += 1; if first.is_empty() { first = format!("round{}:panic", r); } }
+                        }
+                    }
+                }
+                Ok(format!("NAMERACE rounds={} failures={} {}", rounds, failures, first))
+            }
             "XM" => run_decode_multi(st, &mut t),
             // XP <dict> <k> <frame>: decode_from on a reader that already stands k octets PAST the end of what it holds
             "XP" => {
